@@ -27,8 +27,12 @@ use crate::util::{Rng, Stats, guarded};
 /// runs through `RepoHandle::open_oc`; `key` adds a key, `keyrm` removes a key added in the pre-state.
 /// `prune` / `prune-instant` / `prune-early`: `instant_delete` × `early_delete_index` = (0,0) / (1,0) / (0,1); (1,1) is the
 /// documented-unsafe combination the property excludes.
-pub const CMDS: [&str; 13] =
-    ["backup", "forget", "prune", "prune-instant", "prune-early", "merge", "repairsnap", "repairidx-readall", "key", "copy", "rewrite", "config", "keyrm"];
+/// `repairidx`: `repair index` WITHOUT `--read-all` on the state an interrupted prune leaves (cut off right after it wrote its new
+/// index file: rebuilt packs are listed by the old AND the new index file, repacked blobs are stored twice) — a consistent state
+/// in which repair index has index files to reduce, to save and to remove.
+pub const CMDS: [&str; 14] = [
+    "backup", "forget", "prune", "prune-instant", "prune-early", "merge", "repairsnap", "repairidx-readall", "repairidx", "key", "copy", "rewrite", "config", "keyrm",
+];
 
 pub struct Scn {
     pub h: RepoHandle,
@@ -50,7 +54,7 @@ pub fn cfg(seed: u64) -> ConfigOptions {
 /// number of backups in the pre-state (an evolving source): 3 or 4 (2 to 4 where the command does not need three)
 fn n_pre(cmd: &str, seed: u64) -> u64 {
     match cmd {
-        "prune" | "prune-instant" | "prune-early" => 3 + (seed / 7) % 2,
+        "prune" | "prune-instant" | "prune-early" | "repairidx" => 3 + (seed / 7) % 2,
         _ => 2 + (seed / 7) % 3,
     }
 }
@@ -100,6 +104,33 @@ pub fn prestate(cmd: &str, seed: u64) -> Result<Scn, String> {
             r.prune(&o, plan).map_err(e)?;
             let (s, _) = live.remove(0);
             h.open().map_err(e)?.delete_snapshots(&[s.id]).map_err(e)?;
+        }
+        "repairidx" => {
+            // the pre-state of the prune commands …
+            let (s, _) = live.remove(0);
+            h.open().map_err(e)?.delete_snapshots(&[s.id]).map_err(e)?;
+            let r = h.open().map_err(e)?;
+            let o = prune_opts(false);
+            let plan = r.prune_plan(&o).map_err(e)?;
+            r.prune(&o, plan).map_err(e)?;
+            let (s, _) = live.remove(0);
+            h.open().map_err(e)?.delete_snapshots(&[s.id]).map_err(e)?;
+            // … and a prune cut off right after the write of its (first) new index file
+            let o = prune_opts_seed(false, false, seed);
+            let probe = RepoHandle { be: MemBackend::from_store(h.be.store()), hot: None, key: h.key.clone() };
+            let r = probe.open().map_err(e)?;
+            let plan = r.prune_plan(&o).map_err(e)?;
+            r.prune(&o, plan).map_err(e)?;
+            let cut = probe.be.log().iter().position(|x| x.tpe == FileType::Index && x.write).map(|i| i + 1);
+            if let Some(cut) = cut {
+                h.be.clear_log();
+                h.be.set_crash_at(Some(cut));
+                let r = h.open().map_err(e)?;
+                if let Ok(plan) = r.prune_plan(&o) {
+                    _ = r.prune(&o, plan);
+                }
+                h.be.set_crash_at(None);
+            }
         }
         "repairsnap" => {
             // lose one data pack, then drop it from the index: the snapshots that need it are damaged
